@@ -59,7 +59,8 @@ def gen_case(rng, cid):
         desc["sgrid_declared"] = True
         desc["sgrid"] = axes
         extra = {"kind": kind, "space": rng.random() < 0.5, "also_comodo": True}
-    return {"id": cid, "ev": "Autoparse", "desc": desc, "user_coords": rng.random() < 0.1, "extra": extra,
+    extra["user_kind"] = rng.choice(["same", "disjoint", "subset"])
+    return {"id": cid, "ev": "Autoparse", "desc": desc, "user_coords": rng.random() < 0.12, "extra": extra,
             "periodic": rng.random() < 0.5, "seed": rng.randrange(10 ** 6)}
 
 
@@ -135,7 +136,18 @@ def execute(case):
         ds, axes = build(case)
         kw = {"periodic": case["periodic"]}
         if case["user_coords"]:
-            kw["coords"] = {a: {p: d for p, d in ax["pos"]} for a, ax in axes.items()}
+            full = {a: {p: d for p, d in ax["pos"]} for a, ax in axes.items()}
+            uk = case["extra"].get("user_kind", "same")
+            if uk == "disjoint":
+                # coords for an axis the metadata says nothing about: still a conflict, never a silent merge
+                ds["u1"] = xr.DataArray(np.arange(3.0), dims=["u1"])
+                ds["u2"] = xr.DataArray(np.arange(3.0), dims=["u2"])
+                kw["coords"] = {"W": {"center": "u1", "left": "u2"}}
+            elif uk == "subset":
+                a0 = sorted(full)[0]
+                kw["coords"] = {a0: full[a0]}
+            else:
+                kw["coords"] = full
         grid = xgcm.Grid(ds, **kw)
         rec["out"] = {"k": "grid", "coords": sorted([a, p, d] for a, ax in grid.axes.items() for p, d in ax.coords.items()),
                       "axis_order": list(grid.axes)}
